@@ -80,6 +80,7 @@ TRANSLATORS = {
     # gen file -> (translator script, source path relative to REPO)
     "CrcTables.v": ("tools/translate_crc.py", "pytoniq_core/crypto/crc.py"),
     "TlbImpl.v": ("tools/translate_tlb.py", None),
+    "TlSchemaTable.v": ("tools/translate_tl.py", None),
 }
 
 
@@ -91,7 +92,7 @@ def regenerate(gen_files, log):
         script, src = TRANSLATORS[name]
         tmp = os.path.join(COQ, "Gen", name + ".new")
         if src is None:    # the translator imports the package from PYTHONPATH itself; second argument = side output
-            side = os.path.join(OUT, name.replace(".v", "").lower().replace("tlbimpl", "tlb_impl") + ".json")
+            side = os.path.join(OUT, {"TlbImpl.v": "tlb_impl.json", "TlSchemaTable.v": "tl_table.json"}[name])
             os.makedirs(OUT, exist_ok=True)
             env = dict(os.environ, PYTHONPATH=REPO, PYTHONHASHSEED="0")
             rc, out, _ = sh([sys.executable, os.path.join(VERIF, script), tmp, side], timeout=300, env=env)
